@@ -114,6 +114,7 @@ class Evaluator:
     self.loop_stack = []
     self.gen_state = {}    # id -> dict(items=[terms], pos=int) for summarised generators
     self.cond_log = []     # every traced two-armed conditional met: (term, function, node)
+    self.vmap_log = []     # (vmapped wrapper term, args, result, caller): which calls ran under jax.vmap and with which axes
     self.loop_ctl = []     # per active loop: list of (cond, snapshot, kind) for undecided continue/break
     self._ids = 0
     self._active = []     # fqs being inlined (recursion guard)
@@ -1204,6 +1205,7 @@ class Evaluator:
       return self.call(f.args[0], pa, pk, n, scope)
     if op == 'vmapped':
       r = self.call(f.args[0], args, kwargs, n, scope)
+      self.vmap_log.append((f, tuple(args), r, self.cur_fq()))
       return r
     if op == 'maybe':
       # _maybe(f)(x, ...) -> None if x is None else f(x, ...)
